@@ -118,6 +118,6 @@ CHECKS["C20"] = {
     "engine": "strx+symx+vloop",
     "technique": "cvc5 string reasoning over the AST-interpreted request parser for every decoded request string (independent SMT re-encoding of the request line as oracle); Worker.run() with the health server on a virtual-time loop with symbolic failure/probe instants and a solver-enumerated set of junk byte strings through the real protocol objects",
     "text": "C20: 200/503 iff GET on the endpoint else 404, exactly one response, Content-Length right, reported status never written by a request; 503 exactly for connections made after a consumer failed; port open exactly while the worker runs (also during graceful finishing); junk never disturbs processing.",
-    "note": "real sockets replaced by a captured protocol factory; bytes.decode is a stub (raises or returns any string); the clause 'a well-formed request line is never dropped' is decided only for requests <= 20 chars (cvc5 unknown when unbounded); junk inputs are 11 concrete byte strings (enumerated, not symbolic)",
+    "note": "real sockets replaced by a captured protocol factory; bytes.decode is a stub (raises or returns any string); the clause 'a well-formed request line is never dropped' is not decided symbolically (cvc5 answers unknown); it is exercised by concrete valid probes; junk inputs are 11 concrete byte strings (enumerated, not symbolic)",
 }
 NOT_APPLICABLE = {}
